@@ -271,6 +271,49 @@ impl<'tcx> Cx<'tcx> {
                 o.push(("impl_trait", J::S(self.path(tr.def_id))));
             }
         }
+        if let DefKind::Ctor(of, _) = tcx.def_kind(did) {
+            // tuple struct / tuple variant constructor used as a function
+            let parent = tcx.parent(did);
+            let (adt_did, vname) = match of {
+                rustc_hir::def::CtorOf::Struct => (parent, tcx.item_name(parent).to_string()),
+                rustc_hir::def::CtorOf::Variant => (tcx.parent(parent), tcx.item_name(parent).to_string()),
+            };
+            o.push(("ctor", J::O(vec![("adt", J::S(self.path(adt_did))), ("variant", J::S(vname))])));
+        }
+        // `x.into()` / `x.try_into()`: which `From::from` / `TryFrom::try_from` does it reach?
+        if matches!(tcx.def_kind(did), DefKind::AssocFn) && args.len() >= 2 {
+            let name = tcx.item_name(did);
+            let pair = if tcx.trait_of_assoc(did) == tcx.get_diagnostic_item(rustc_span::sym::Into) {
+                Some((rustc_span::sym::From, rustc_span::sym::from, name.as_str() == "into"))
+            } else if tcx.trait_of_assoc(did) == tcx.get_diagnostic_item(rustc_span::sym::TryInto) {
+                Some((rustc_span::sym::TryFrom, rustc_span::sym::try_from, name.as_str() == "try_into"))
+            } else {
+                None
+            };
+            if let Some((tr_sym, fn_sym, true)) = pair {
+                if let (Some(tr), Some(t0), Some(t1)) = (tcx.get_diagnostic_item(tr_sym), args.get(0).and_then(|a| a.as_type()), args.get(1).and_then(|a| a.as_type())) {
+                    let from_fn = tcx
+                        .associated_items(tr)
+                        .filter_by_name_unhygienic(fn_sym)
+                        .next()
+                        .map(|it| it.def_id);
+                    if let Some(from_fn) = from_fn {
+                        let fargs = tcx.mk_args(&[t1.into(), t0.into()]);
+                        let env = ty::TypingEnv::post_analysis(tcx, owner);
+                        let r = std::panic::catch_unwind(std::panic::AssertUnwindSafe(|| {
+                            ty::Instance::try_resolve(tcx, env, from_fn, fargs)
+                        }));
+                        if let Ok(Ok(Some(inst))) = r {
+                            let rd = inst.def_id();
+                            if rd != from_fn {
+                                o.push(("via_from", J::S(self.path(rd))));
+                                o.push(("via_from_key", J::S(self.key(rd))));
+                            }
+                        }
+                    }
+                }
+            }
+        }
         if matches!(tcx.def_kind(did), DefKind::Fn | DefKind::AssocFn) {
             let env = ty::TypingEnv::post_analysis(tcx, owner);
             let r = std::panic::catch_unwind(std::panic::AssertUnwindSafe(|| {
